@@ -204,16 +204,21 @@ func (f *Frame) enterLoop(li *loopInfo, cur *State, r string) (*State, string) {
 				ev.useAxiom(u)
 			}
 		}
-		if li.lc.Decreases != nil {
+		if dec := f.loopDecr(li); dec != nil {
 			li.variant0 = nil
-			for _, e := range li.lc.Decreases.Exprs {
+			for _, e := range dec.Exprs {
 				v, err := ev.eval(e)
 				if err != nil {
-					c.errorf("%s: decreases: %v", li.lc.Decreases.Where, err)
+					c.errorf("%s: decreases: %v", dec.Where, err)
 					continue
 				}
 				li.variant0 = append(li.variant0, v.T)
 			}
+		}
+	}
+	if f.loopDecr(li) == nil {
+		if ri2, it2 := f.headerRange(li); ri2 == nil && it2 == nil {
+			c.noVariant = append(c.noVariant, fmt.Sprintf("%s/%s", c.key, f.loopName(li)))
 		}
 	}
 	li.hdrState = st.clone()
@@ -289,10 +294,10 @@ func (f *Frame) closeLoop(li *loopInfo, st *State, cond string) {
 			}
 			f.oblige("transition"+tr.Tag()+"/"+f.loopName(li), tr, cond, g)
 		}
-		if li.lc.Decreases != nil && len(li.variant0) > 0 {
+		if dec := f.loopDecr(li); dec != nil && len(li.variant0) > 0 {
 			var now []string
 			ok := true
-			for _, e := range li.lc.Decreases.Exprs {
+			for _, e := range dec.Exprs {
 				v, err := ev.eval(e)
 				if err != nil {
 					ok = false
@@ -301,7 +306,16 @@ func (f *Frame) closeLoop(li *loopInfo, st *State, cond string) {
 				now = append(now, v.T)
 			}
 			if ok {
-				f.oblige("variant"+li.lc.Decreases.Tag()+"/"+f.loopName(li), li.lc.Decreases, cond, lexLess(now, li.variant0))
+				goal := lexLess(now, li.variant0)
+				if ta := f.fc.TermAssume; ta != nil {
+					// the variants are proved under the function's termination hypothesis (termassume)
+					if a, err := ev.evalBool(ta.Expr); err == nil {
+						goal = "(=> " + a + " " + goal + ")"
+					} else {
+						c.errorf("%s: termassume: %v", ta.Where, err)
+					}
+				}
+				f.oblige("variant"+dec.Tag()+"/"+f.loopName(li), dec, cond, goal)
 			}
 		}
 		if len(li.lc.Modifies) > 0 {
@@ -370,4 +384,19 @@ func (f *Frame) unbound(kind string, cl *Clause, err error) {
 		ob.Result = "unbound"
 		ob.Model = err.Error()
 	}
+}
+
+// loopDecr: the variant of a loop: its own decreases clause, else the function's default (loopdecr, from a template)
+// unless the loop ranges over a slice, string or map (those end by construction).
+func (f *Frame) loopDecr(li *loopInfo) *Clause {
+	if li.lc != nil && li.lc.Decreases != nil {
+		return li.lc.Decreases
+	}
+	if f.fc == nil || f.fc.LoopDecr == nil || li.lc == nil {
+		return nil
+	}
+	if ri, it := f.headerRange(li); ri != nil || it != nil {
+		return nil
+	}
+	return f.fc.LoopDecr
 }
